@@ -238,6 +238,7 @@ func (g *Gen) Step() bool {
 			choice{g.wt("refburst"), func() { g.opRefBurst(conns) }},
 			choice{g.wt("recheckburst"), func() { g.opRecheckBurst(conns) }},
 			choice{g.wt("getoverlap"), func() { g.opGetOverlapBurst(conns) }},
+			choice{g.wt("stallburst"), func() { g.opStallBurst(conns) }},
 			choice{g.wt("throtburst"), func() { g.opThrottleBurst(conns) }},
 			choice{g.wt("gcburst"), func() { g.opGCBurst(conns) }},
 			choice{g.wt("aliasburst") * boolInt(len(g.qnames) > 0), func() { g.opAliasBurst(conns) }},
@@ -1611,6 +1612,21 @@ func (g *Gen) opHTTPToken(pend []PendingView) {
 	sort.Strings(cids)
 	cid := g.sample("htcid", cids)
 	g.w.Exec(Op{K: "rawev", S: "conn." + cid + ".token", P: `{"token":` + g.sample("token", g.tokens()) + `}`, Key: "httptoken"})
+}
+
+// opStallBurst: a client stops reading its socket and sends two requests that
+// are answered at once: the first answer is taken by the read already under
+// way, the second leaves the connection's worker inside a write. What the
+// gateway does with such a connection at Stop is up to the fault that follows.
+func (g *Gen) opStallBurst(conns []*Client) {
+	c := g.conn(conns)
+	if c.stallCh() != nil {
+		return
+	}
+	g.w.Exec(Op{K: "cstall", C: c.Idx})
+	for i := 0; i < 2; i++ {
+		g.w.Exec(Op{K: "creq", C: c.Idx, ID: g.nextID(c), M: "version", P: `{"protocol":"1.2.3"}`})
+	}
 }
 
 // opConnEvent: an event on a connection's subject that is not the token event.
